@@ -9,6 +9,7 @@ KNOWN = [f['key'] for f in known['findings']]
 def is_known(key):
     return any(key == k or key.startswith(k.split(':')[0]) and k.startswith(key.split(':')[0]) and (':' not in k or k in key or key in k) for k in KNOWN)
 
+only = sys.argv[1:]
 QUICK = {"C01": 1000, "C02": 800, "C03": 1000, "C04": 1200, "C05": 700, "C06": 800, "C07": 800, "C08": 640, "C09": 900,
          "C10": 1200, "C11": 800, "C12": 800, "C15": 500, "C16": 1000, "C17": 780, "C18": 800}
 
